@@ -11,12 +11,11 @@
   inside strings, unknown escapes, lone surrogates in `\u` escapes (§8.2 calls the behaviour
   "unpredictable"; a Lean `Char` cannot hold a surrogate, so they are rejected), leading
   zeros, trailing text.
-* `JV` — the value kinds the service renders, `jsonify` — what `Value::jsonify`
-  (`feel/src/values.rs:274-290`, `:484-489`), `FeelContext::jsonify`
+* `JV` — the value kinds the service renders, `jsonify` — what `Value::jsonify` and
+  `json_escape` (`feel/src/values.rs:274-308`, `:503-508`), `FeelContext::jsonify`
   (`feel/src/context.rs:119-133`) and `FeelNumber::jsonify` (`feel-number/src/number.rs:364`)
-  do, character by character.
-* `jsonifyFixed` — the repaired renderer (strings and keys escaped; kinds without a JSON
-  form rendered as strings), for which the full theorem holds.
+  do, character by character: strings and context keys are escaped, kinds without a JSON
+  form are written as the (escaped) string of their `Display` text.
 
 Text is `List Char` throughout so that everything reduces in the kernel.
 -/
@@ -296,54 +295,17 @@ inductive JV where
   | list (xs : List JV)
   /-- entries in `BTreeMap` order; keys are `Name`s rendered with `Display` -/
   | ctx (es : List (List Char × JV))
-  /-- `_ => format!("jsonify not implemented for: {}", self)`; `display` = `self.to_string()` -/
+  /-- `_ => format!("\"{}\"", json_escape(&self.to_string()))`; `display` = `self.to_string()` -/
   | other (display : List Char)
   deriving Repr, Inhabited
 
-def notImplemented : List Char :=
-  ['j', 's', 'o', 'n', 'i', 'f', 'y', ' ', 'n', 'o', 't', ' ', 'i', 'm', 'p', 'l', 'e', 'm', 'e', 'n', 't', 'e',
-    'd', ' ', 'f', 'o', 'r', ':', ' ']
-
-mutual
-
-/-- `impl Jsonify for Value` (`values.rs:274-290`). -/
-def jsonify : JV → List Char
-  | .null => ['n', 'u', 'l', 'l']                       -- Value::Null(_) => "null"
-  | .bool true => ['t', 'r', 'u', 'e']                  -- format!("{}", value)
-  | .bool false => ['f', 'a', 'l', 's', 'e']
-  | .num t => t                                          -- value.jsonify()
-  | .str s => '"' :: (s ++ ['"'])                        -- format!("\"{}\"", s)
-  | .list xs => '[' :: (jsonifyItems xs ++ [']'])        -- format!("[{}]", … .join(", "))
-  | .ctx es => '{' :: (jsonifyEntries es ++ ['}'])       -- format!("{{{}}}", … .join(", "))
-  | .other d => notImplemented ++ d
-
-/-- `.map(|value| value.jsonify()).collect::<Vec<String>>().join(", ")` (`values.rs:484-489`) -/
-def jsonifyItems : List JV → List Char
-  | [] => []
-  | x :: xs => jsonify x ++ jsonifyMore xs
-
-def jsonifyMore : List JV → List Char
-  | [] => []
-  | x :: xs => ',' :: ' ' :: (jsonify x ++ jsonifyMore xs)
-
-/-- `.map(|(name, value)| format!(r#""{}": {}"#, name, value.jsonify())) … .join(", ")`
-(`context.rs:119-133`) -/
-def jsonifyEntries : List (List Char × JV) → List Char
-  | [] => []
-  | (k, v) :: es => '"' :: (k ++ '"' :: ':' :: ' ' :: (jsonify v ++ jsonifyMoreEntries es))
-
-def jsonifyMoreEntries : List (List Char × JV) → List Char
-  | [] => []
-  | (k, v) :: es => ',' :: ' ' :: '"' :: (k ++ '"' :: ':' :: ' ' :: (jsonify v ++ jsonifyMoreEntries es))
-
-end
-
-/-! ## The repaired renderer -/
+/-! ## `json_escape` and `jsonify` -/
 
 def hexDigit (n : Nat) : Char := if n < 10 then Char.ofNat (48 + n) else Char.ofNat (87 + n)
 
-/-- JSON string escaping (§7): the two characters that must be escaped, the short forms,
-and `\u00XX` for the remaining control characters.  (This is also what `serde_json` emits.) -/
+/-- `json_escape` (`values.rs:292-308`), one character: the two characters that must be
+escaped (§7), the short forms, and `\u00XX` (`{:04x}`) for the remaining control characters.
+(This is also what `serde_json` emits.) -/
 def escapeChar (c : Char) : List Char :=
   if c == '"' then ['\\', '"']
   else if c == '\\' then ['\\', '\\']
@@ -364,31 +326,35 @@ def quote (s : List Char) : List Char := '"' :: (escape s ++ ['"'])
 
 mutual
 
-def jsonifyFixed : JV → List Char
-  | .null => ['n', 'u', 'l', 'l']
-  | .bool true => ['t', 'r', 'u', 'e']
+/-- `impl Jsonify for Value` (`values.rs:274-289`). -/
+def jsonify : JV → List Char
+  | .null => ['n', 'u', 'l', 'l']                       -- Value::Null(_) => "null"
+  | .bool true => ['t', 'r', 'u', 'e']                  -- format!("{}", value)
   | .bool false => ['f', 'a', 'l', 's', 'e']
-  | .num t => t
-  | .str s => quote s
-  | .list xs => '[' :: (jsonifyFixedItems xs ++ [']'])
-  | .ctx es => '{' :: (jsonifyFixedEntries es ++ ['}'])
-  | .other d => quote d
+  | .num t => t                                          -- value.jsonify()
+  | .str s => quote s                                    -- format!("\"{}\"", json_escape(s))
+  | .list xs => '[' :: (jsonifyItems xs ++ [']'])        -- format!("[{}]", … .join(", "))
+  | .ctx es => '{' :: (jsonifyEntries es ++ ['}'])       -- format!("{{{}}}", … .join(", "))
+  | .other d => quote d                                  -- format!("\"{}\"", json_escape(&self.to_string()))
 
-def jsonifyFixedItems : List JV → List Char
+/-- `.map(|value| value.jsonify()).collect::<Vec<String>>().join(", ")` (`values.rs:503-508`) -/
+def jsonifyItems : List JV → List Char
   | [] => []
-  | x :: xs => jsonifyFixed x ++ jsonifyFixedMore xs
+  | x :: xs => jsonify x ++ jsonifyMore xs
 
-def jsonifyFixedMore : List JV → List Char
+def jsonifyMore : List JV → List Char
   | [] => []
-  | x :: xs => ',' :: ' ' :: (jsonifyFixed x ++ jsonifyFixedMore xs)
+  | x :: xs => ',' :: ' ' :: (jsonify x ++ jsonifyMore xs)
 
-def jsonifyFixedEntries : List (List Char × JV) → List Char
+/-- `.map(|(name, value)| format!(r#""{}": {}"#, json_escape(&name.to_string()), value.jsonify()))
+… .join(", ")` (`context.rs:119-133`) -/
+def jsonifyEntries : List (List Char × JV) → List Char
   | [] => []
-  | (k, v) :: es => quote k ++ ':' :: ' ' :: (jsonifyFixed v ++ jsonifyFixedMoreEntries es)
+  | (k, v) :: es => quote k ++ ':' :: ' ' :: (jsonify v ++ jsonifyMoreEntries es)
 
-def jsonifyFixedMoreEntries : List (List Char × JV) → List Char
+def jsonifyMoreEntries : List (List Char × JV) → List Char
   | [] => []
-  | (k, v) :: es => ',' :: ' ' :: (quote k ++ ':' :: ' ' :: (jsonifyFixed v ++ jsonifyFixedMoreEntries es))
+  | (k, v) :: es => ',' :: ' ' :: (quote k ++ ':' :: ' ' :: (jsonify v ++ jsonifyMoreEntries es))
 
 end
 
@@ -418,34 +384,6 @@ end
 
 /-! ## Decidable side conditions -/
 
-/-- A character that may stand for itself between quotation marks (§7 `unescaped`). -/
-def plainChar (c : Char) : Bool := !(c == '"') && !(c == '\\') && !(c.toNat < 0x20)
-
-def plainText (s : List Char) : Bool := s.all plainChar
-
-mutual
-
-/-- No string and no context key contains a character that needs escaping, and every value
-is of a JSON-able kind: the region in which the unrepaired `jsonify` is correct (F17). -/
-def noEscapeNeeded : JV → Bool
-  | .null => true
-  | .bool _ => true
-  | .num _ => true
-  | .str s => plainText s
-  | .list xs => noEscapeNeededList xs
-  | .ctx es => noEscapeNeededEntries es
-  | .other _ => false
-
-def noEscapeNeededList : List JV → Bool
-  | [] => true
-  | x :: xs => noEscapeNeeded x && noEscapeNeededList xs
-
-def noEscapeNeededEntries : List (List Char × JV) → Bool
-  | [] => true
-  | (k, v) :: es => plainText k && noEscapeNeeded v && noEscapeNeededEntries es
-
-end
-
 mutual
 
 /-- Every number text is a number of the JSON grammar (what C07 says of `FeelNumber`'s
@@ -471,9 +409,6 @@ end
 /-- `format!("{{\"data\":{}}}", value.jsonify())` -/
 def dataBody (v : JV) : List Char :=
   ['{', '"', 'd', 'a', 't', 'a', '"', ':'] ++ jsonify v ++ ['}']
-
-def dataBodyFixed (v : JV) : List Char :=
-  ['{', '"', 'd', 'a', 't', 'a', '"', ':'] ++ jsonifyFixed v ++ ['}']
 
 /-- `ResultDto::error(reason).to_string()` = `{"errors":[{"details":"…"}]}` through
 `serde_json` (which escapes as `escape` does). -/
